@@ -346,14 +346,17 @@ pub enum Tok {
     Regex {
         pat: Vec<u8>,
         form: String,
-        valid: bool,
+        bad: String,
         re: Value,
+        /// quoted form: the characters after the opening quote, including the closing quote
+        body: Vec<u8>,
+        #[serde(default)]
         txt: String,
     },
     Wild {
         v: Vec<u8>,
         form: String,
-        valid: bool,
+        #[serde(default)]
         txt: String,
     },
 }
@@ -456,6 +459,48 @@ pub fn render_with(ts: &[Tok], mut layout: impl FnMut(usize, u8) -> String) -> S
         s.push_str(&t.text());
     }
     s
+}
+
+/// tokens emitted by TLC carry no literal text for patterns: spell them here
+pub fn fill_txt(ts: &mut [Tok]) {
+    for t in ts.iter_mut() {
+        match t {
+            Tok::Regex { pat, form, body, txt, .. } if txt.is_empty() => {
+                if form == "q" {
+                    *txt = format!("\"{}", String::from_utf8_lossy(body));
+                } else {
+                    let p = String::from_utf8_lossy(pat).to_string();
+                    let mut need = 0usize;
+                    let b = p.as_bytes();
+                    for i in 0..b.len() {
+                        if b[i] == b'"' {
+                            let mut k = 0;
+                            while i + 1 + k < b.len() && b[i + 1 + k] == b'#' {
+                                k += 1;
+                            }
+                            need = need.max(k + 1);
+                        }
+                    }
+                    let h = "#".repeat(need);
+                    *txt = format!("r{h}\"{p}\"{h}");
+                }
+            }
+            Tok::Wild { v, txt, .. } if txt.is_empty() => {
+                let mut s = String::from("\"");
+                for c in v.iter() {
+                    match *c {
+                        b'"' => s.push_str("\\\""),
+                        b'\\' => s.push_str("\\\\"),
+                        0x20..=0x7e => s.push(*c as char),
+                        other => s.push_str(&format!("\\x{:02x}", other)),
+                    }
+                }
+                s.push('"');
+                *txt = s;
+            }
+            _ => {}
+        }
+    }
 }
 
 pub fn render(ts: &[Tok]) -> String {
